@@ -454,6 +454,7 @@ func runDecisionRows(c *core.Ctx, e *Env, pkgPath, defaultType string, rows []dt
 		fr := &dtFrame{info: info, subst: map[types.Object]dtBound{}, recv: recv}
 		ev := newDtEval(e)
 		ev.occ = row.occ
+		ev.root = fn.Body()
 		type eff struct {
 			paths [][]dtGuard
 			value ast.Expr
